@@ -160,6 +160,7 @@ class Broker:
         self.connect_seen = False
         self.connack_sent = False
         self.alias_tbl = {}
+        self.old_aliases = set()       # alias numbers this server bound on earlier connections (stale now)
 
     def new_connection(self):
         self.buf = b""
@@ -167,6 +168,7 @@ class Broker:
         self.seen = []
         self.connect_seen = False
         self.connack_sent = False
+        self.old_aliases |= set(self.alias_tbl)
         self.alias_tbl = {}
 
     def feed(self, data):
@@ -306,6 +308,12 @@ def gen_config(rng, adversarial=False, profile="default"):
         cfg["resolver"] = rng.choice(["manual", "lru", "lru"])
         cfg["rmax"] = rng.choice([2, 5])
         co = [x for x in co if not x.startswith("mps=")]
+    if profile == "inalias":
+        # inbound aliasing across connections: the client allows aliases, sessions are resumed
+        cfg["v"] = 5
+        co = [x for x in co if not x.startswith("tam=") and not x.startswith("rejoin=") and not x.startswith("mps=")]
+        co.append(f"tam={rng.choice([1, 3, 3, 10])}")
+        co.append(f"rejoin={rng.choice(['post', 'always'])}")
     if profile == "backlog":
         # many unacknowledged operations across resumed sessions: retain everything, rejoin sessions
         cfg["policy"] = rng.choice(["all", "all", "acked"])
@@ -320,7 +328,7 @@ class Walk:
     def __init__(self, rng, harness, adversarial=False, strict_driver=False, length=80, snap_after_svc=False, profile="default"):
         self.rng = rng
         self.h = harness
-        self.adv = adversarial
+        self.adv = adversarial or profile == "inalias"
         self.strict = strict_driver
         self.length = length
         self.snap_after_svc = snap_after_svc
@@ -335,7 +343,7 @@ class Walk:
         self.buf_len = 0        # bytes handed out by service and not yet write-completed
         self.cap = 4096
         self.nuser = 0
-        self.cfg, self.new_line, self.ka = gen_config(rng, adversarial, profile)
+        self.cfg, self.new_line, self.ka = gen_config(rng, self.adv, profile)
         _ckv = parse_kv("c " + self.new_line.split(" | ", 1)[1])[1]
         self.client_tam = int(kv_get(_ckv, "tam", "0"))
         self.connect_kv = _ckv
@@ -464,7 +472,7 @@ class Walk:
         r = self.rng
         b = self.broker
         rc = 0 if r.chance(0.9) else r.choice([135, 136])
-        sp = 1 if (b.session and rc == 0 and r.chance(0.95 if self.profile in ("backlog", "qos2tiny") else 0.7)) else 0
+        sp = 1 if (b.session and rc == 0 and r.chance(0.95 if self.profile in ("backlog", "qos2tiny", "inalias") else 0.7)) else 0
         if getattr(b, "clean_start", False):
             sp = 0          # a conformant server discards the session on Clean Start
         if self.adv and r.chance(0.05):
@@ -552,10 +560,11 @@ class Walk:
                 b.out_qos2[pid] = "sent"
         alias = None
         topic = b"in/%d" % r.randint(0, 3)
-        if self.v5 and r.chance(0.3):
-            if self.adv:
-                alias = r.choice([1, 2, 3, 11])
-                if r.chance(0.4):
+        if self.v5 and r.chance(0.6 if self.profile == "inalias" else 0.3):
+            if self.adv and not (self.profile == "inalias" and r.chance(0.6)):
+                # a server that is not conformant: any alias number, an alias it bound on an earlier connection, no topic
+                alias = r.choice([1, 2, 3, 11] + sorted(b.old_aliases))
+                if r.chance(0.4) or alias in b.old_aliases:
                     topic = b""
             elif self.client_tam > 0:
                 # a conformant server: alias within the client's maximum, empty topic only for a bound alias
